@@ -367,7 +367,13 @@ impl Expr {
                     fmt.write_char('-')?;
                 }
                 fmt.write_char('\'')?;
-                fmt.write_str(val)?;
+                // a quote inside the text is marked, or `concat("a', 'b")` would read like `concat('a', 'b')`
+                for c in val.chars() {
+                    if c == '\'' || c == '\\' {
+                        fmt.write_char('\\')?;
+                    }
+                    fmt.write_char(c)?;
+                }
                 fmt.write_char('\'')
             }
             _ => fmt.write_str(&argument.to_string()),
